@@ -231,6 +231,12 @@ func dlTransport(pkg []byte, withNas bool) *ngapType.DownlinkNASTransport {
 	ie.Id.Value = ngapType.ProtocolIEIDAMFUENGAPID
 	ie.Value.Present = ngapType.DownlinkNASTransportIEsPresentAMFUENGAPID
 	ie.Value.AMFUENGAPID = &ngapType.AMFUENGAPID{Value: 1}
+	seq := atomic.AddInt64(&dlTransportSeq, 1)
+	if seq%2 == 1 {
+		// the id the UE context already holds (dlHistOp); otherwise another one: an AMF may re-allocate it, and GetNasPdu
+		// hands out the NAS-PDU whatever the ids are
+		ie.Value.AMFUENGAPID.Value = dlHistAmfID
+	}
 	m.ProtocolIEs.List = append(m.ProtocolIEs.List, ie)
 	ie = ngapType.DownlinkNASTransportIEs{}
 	ie.Id.Value = ngapType.ProtocolIEIDRANUENGAPID
@@ -239,7 +245,6 @@ func dlTransport(pkg []byte, withNas bool) *ngapType.DownlinkNASTransport {
 	m.ProtocolIEs.List = append(m.ProtocolIEs.List, ie)
 	// one message in three carries the optional IEs that TS 38.413 9.2.5.2 places BEFORE the NAS-PDU (Old AMF, RAN Paging
 	// Priority): the NAS-PDU is found by its IE id, not by its position
-	seq := atomic.AddInt64(&dlTransportSeq, 1)
 	if seq%3 != 0 {
 		ie = ngapType.DownlinkNASTransportIEs{}
 		ie.Id.Value = ngapType.ProtocolIEIDOldAMF
@@ -264,11 +269,14 @@ func dlTransport(pkg []byte, withNas bool) *ngapType.DownlinkNASTransport {
 	return m
 }
 
+const dlHistAmfID = 0x1122334455
+
 func dlHistOp(a []string) string {
 	if len(a) < 6 {
 		panic(badArg{})
 	}
 	ue := newUe(a)
+	ue.AmfUeNgapId = dlHistAmfID // a registered UE: the context holds the id the AMF gave it
 	var out strings.Builder
 	out.WriteString("ok")
 	for _, st := range a[6:] {
